@@ -97,3 +97,63 @@ theorem caseSelect_spec (items : List (List (List PatternChar))) (subj : List Ch
 
 end Proofs
 end YashModel.Fnmatch
+
+namespace YashModel.Fnmatch
+namespace Proofs
+
+/-- the whole `case` run (which bodies, in which order) is the Spec's, when every alternative is inside the
+    defined notation -/
+theorem caseExecGo_spec (subj : List Char) (items : List (List (List PatternChar) × CaseCont))
+    (hd : ∀ it ∈ items, ∀ p ∈ it.1, astDefined (parseAtoms p) = true) (falling : Bool) (i : Nat) :
+    caseExecGo subj falling i items =
+      specCaseExec subj falling i (items.map fun it => (it.1.map parseAtoms, it.2)) := by
+  induction items generalizing falling i with
+  | nil => rfl
+  | cons it r ih =>
+    obtain ⟨alts, c⟩ := it
+    have hr : ∀ it ∈ r, ∀ p ∈ it.1, astDefined (parseAtoms p) = true :=
+      fun it hi => hd it (List.mem_cons_of_mem _ hi)
+    have hm : itemMatches subj alts = (alts.map parseAtoms).any (altMatches subj) := by
+      rw [itemMatches_spec, any_defined subj alts (hd (alts, c) (by simp)), List.any_map]
+    simp only [caseExecGo, specCaseExec, List.map_cons, hm, ih hr]
+    cases c <;> rfl
+
+/-- without failing expansions the error-aware run is the plain one -/
+theorem caseExecEGo_no_error (subj : List Char) (items : List (List (List PatternChar) × CaseCont))
+    (falling : Bool) (i : Nat) :
+    caseExecEGo subj falling i (items.map fun it => (it.1.map some, it.2)) =
+      (caseExecGo subj falling i items, false) := by
+  have hE : ∀ alts : List (List PatternChar), itemMatchesE subj (alts.map some) = some (itemMatches subj alts) := by
+    intro alts
+    induction alts with
+    | nil => rfl
+    | cons p r ih =>
+      simp only [List.map_cons, itemMatchesE, ih]
+      cases hp : Pattern.parse p caseConfig with
+      | error e => simp [itemMatches, hp]
+      | ok pat => simp only [itemMatches, hp]; cases pat.isMatch subj <;> simp
+  induction items generalizing falling i with
+  | nil => rfl
+  | cons it r ih =>
+    obtain ⟨alts, c⟩ := it
+    simp only [List.map_cons, caseExecEGo, caseExecGo, hE]
+    cases falling <;> cases hm : itemMatches subj alts <;> cases c <;> simp [ih]
+
+/-- the Spec's run starts at the Spec's selected item -/
+theorem specCaseExec_head (subj : List Char) (items : List (List Ast × CaseCont)) (i : Nat) :
+    (specCaseExec subj false i items).head? =
+      ((items.map Prod.fst).findIdx? (fun alts => alts.any (altMatches subj))).map (· + i) := by
+  induction items generalizing i with
+  | nil => rfl
+  | cons it r ih =>
+    obtain ⟨alts, c⟩ := it
+    simp only [specCaseExec, List.map_cons, List.findIdx?_cons, Bool.false_or]
+    cases alts.any (altMatches subj) with
+    | true => simp
+    | false =>
+      simp only [Bool.false_eq_true, if_false]
+      rw [ih (i + 1)]
+      cases List.findIdx? _ (r.map Prod.fst) <;> simp; omega
+
+end Proofs
+end YashModel.Fnmatch
